@@ -3,6 +3,7 @@ pub mod codegen;
 pub mod e2e;
 pub mod heapbfs;
 pub mod selftest;
+pub mod stages;
 pub mod subst;
 
 use crate::framework::*;
@@ -13,6 +14,15 @@ use std::time::Instant;
 pub fn run_worker(check: &str, ctx: &WorkerCtx, _extra: &[String]) -> Report {
     match check {
         "C01" => e2e::worker(ctx),
+        "C02" => stages::worker(ctx, stages::Prop::C02),
+        "C03" => stages::worker(ctx, stages::Prop::C03),
+        "C04" => stages::worker(ctx, stages::Prop::C04),
+        "C05" => {
+            let mut r = stages::worker(ctx, stages::Prop::C05);
+            stages::nl_worker(ctx, &mut r);
+            r
+        }
+        "C12" => stages::worker(ctx, stages::Prop::C12),
         "C06" => codegen::worker(ctx, Arch::X86, codegen::Mode::Semantics),
         "C07" => codegen::worker(ctx, Arch::A64, codegen::Mode::Semantics),
         "C08" => codegen::worker(ctx, Arch::Rv64, codegen::Mode::Semantics),
@@ -194,6 +204,43 @@ pub fn run_check(id: &str, tier: Tier) -> i32 {
             };
             finish(&meta, tier, started, rep, Map::new())
         }
+        "C02" | "C03" | "C04" | "C05" | "C12" => {
+            let rep = run_sharded(id, tier, &[]);
+            let fams = "the Fun families (FUN-S, FUN-SHADOW, FUN-LIVE, FUN-LIT/OPS/CMP, FUN-DATA, FUN-CTRL, codata, name lookalikes";
+            let meta = match id {
+                "C02" => CheckMeta {
+                    property: "C02",
+                    level: "model_checking",
+                    rule: format!("every program of {fams}; effects only in sequenced positions) x argument tuples is translated by the real compile_prog; the Core abstract machine R-CORE (lexical scoping on name+id, polarity-directed critical pairs, dynamic focusing) runs the output and its print sequence + result are compared with R-FUN; statically every variable/covariable occurrence of the output is bound and typed and all definition names are distinct (TC-CORE). Distinct = distinct source texts."),
+                    assumptions: vec!["R-FUN and R-CORE are independent implementations of the semantics stated in the property; they agree with the compiled code on the repository's examples".into()],
+                },
+                "C03" => CheckMeta {
+                    property: "C03",
+                    level: "model_checking",
+                    rule: format!("every translation output of {fams}, plus FUN-EFFECT with prints/goto/exit in argument positions) is run on R-CORE before and after the real Prog::focus(); full print sequence and result must agree; after focusing, binders along every path are checked to be non-zero, pairwise distinct and <= max_id."),
+                    assumptions: vec!["R-CORE's dynamic focusing (left-to-right, once for integers/data, by name for codata, consumer-first for codata cuts) is the reading of the property's evaluation order".into()],
+                },
+                "C04" => CheckMeta {
+                    property: "C04",
+                    level: "model_checking",
+                    rule: format!("every focused program of {fams}, FUN-EFFECT) is shrunk by the real shrink_prog; the AxCut machine (by name) on the output must agree with R-CORE on the focused input (output, result, termination); lifted definitions must have exactly the free variables of their body as parameters; the output must be well-scoped with unique binders per path."),
+                    assumptions: vec!["focused Core is embedded into Core and run on the same R-CORE machine".into()],
+                },
+                "C05" => CheckMeta {
+                    property: "C05",
+                    level: "model_checking",
+                    rule: format!("(a) the complete space of non-linear AxCut statements over contexts of <= 3 (quick) / <= 4 (thorough) variables: every kind assignment x statement kind (literal, print, op, let, ifc, switch, create with every captured subset, call with every argument pair incl. repetition) x every subset of variables used afterwards; (b) every shrunk program of {fams}). Each is linearized by the real linearizer; TC-AX checks the ordered-linear judgment of DESIGN Appendix A on every statement of every path; the positional AxCut machine on the linearized program must agree with the by-name machine on the original."),
+                    assumptions: vec!["Appendix A judgment read off the backends' expectations".into()],
+                },
+                _ => CheckMeta {
+                    property: "C12",
+                    level: "exploration",
+                    rule: format!("every program of {fams}, FUN-EFFECT) is accepted by the checker and taken through translation, focusing, shrinking, linearization and the three code generators under catch_unwind (only the documented capacity panics are tolerated); TC-CORE checks the translation output and the focused program, TC-AX the shrunk and the linearized program, with exactly the judgments listed in the property. Non-trivial = reached all stages; distinct = distinct source texts."),
+                    assumptions: vec!["TC-CORE/TC-AX are independent of the repository's own type information except for the annotations carried by the programs".into()],
+                },
+            };
+            finish(&meta, tier, started, rep, Map::new())
+        }
         "C09" | "C10" => {
             let rep = run_sharded(id, tier, &[]);
             let meta = heap_meta(if id == "C09" { "C09" } else { "C10" });
@@ -262,6 +309,21 @@ pub fn replay(id: &str, path: &str) -> i32 {
             }
             Ok(None) => {
                 println!("[{id}] replay: executable behaves like the source");
+                0
+            }
+            Err(e) => {
+                eprintln!("replay failed: {e}");
+                2
+            }
+        },
+        Some("funstage") | Some("axnl") => match stages::replay(case) {
+            Ok(Some(msg)) => {
+                println!("[{id}] replay: {msg}");
+                println!("VIOLATION property={id} replay={path}");
+                1
+            }
+            Ok(None) => {
+                println!("[{id}] replay: no violation");
                 0
             }
             Err(e) => {
